@@ -202,6 +202,10 @@ def container_method(ex, recv: SV, name: str, pos, kw, st: State) -> SV:
             m = pos[0]
             if m.kind == 'val' and m.ty is not None and m.ty.kind == 'list':
                 m = sv_ref(ex.as_ref(m, st, 'extend'), List(m.ty.elem))
+            elif m.kind == 'val' and (m.ty is None or m.ty.kind == 'val'):
+                # dynamically typed iterable: must be a list (anything else is outside the subset -> TypeError exit)
+                ex.side_raise(st, 'TypeError', z3.Not(z3.And(is_VRef(m.t), st.h.cls(v_a(m.t)) == CLS_LIST)), 'extend(non-list)')
+                m = sv_ref(v_a(m.t), List(None))
             if m.kind == 'ref' and m.cls == 'list':
                 ex.list_extend(l, m.t, st)
                 if recv.ty is not None and recv.ty.elem is None and m.ty is not None and m.ty.elem is not None:
@@ -443,6 +447,13 @@ def call_by_contract(ex, c: Contract, pos, kw, st: State, site='') -> SV:
                 xs.assume(f)
         ex.raise_exit(xs, exc, tag)
         st.assume(z3.Not(cf))
+    for exc in c.may_raise:
+        cf = ex.fresh(z3.BoolSort(), 'mayraise')
+        xs = st.fork()
+        xs.assume(cf)
+        havoc(ex, xs, c)
+        ex.raise_exit(xs, exc, tag)
+        st.assume(z3.Not(cf))
     # normal exit
     h_after = havoc(ex, st, c)
     ret_ty = c.returns
@@ -486,5 +497,8 @@ def havoc(ex, st: State, c: Contract) -> H:
     st.h = h
     if 'L_bag' in c.modifies:
         for f in list_axioms(h):
+            st.assume(f)
+    if c.modifies or c.allocates:
+        for f in heap_closed(h, only=set(c.modifies) if not c.allocates else None):
             st.assume(f)
     return h
